@@ -24,6 +24,7 @@ type arrival struct {
 type scenario struct {
 	Kind      string      `json:"kind"` // delayfilter | router | chain (sender behind a LAN router behind the WAN router, both delaying)
 	Delay2Ns  int64       `json:"delay2Ns"` // chain: the LAN router's minimum delay
+	RestartAtNs int64     `json:"restartAtNs"` // router variants: Stop and Start the (WAN) router at this time (0 = never)
 	DelayNs   int64       `json:"delayNs"`
 	JitterNs  int64       `json:"jitterNs"`
 	Producers [][]arrival `json:"producers"`
@@ -45,13 +46,20 @@ func gen(r *harn.Rng, tier string) interface{} {
 		}
 	}
 	sc.DelayNs = delays[r.Intn(len(delays))]
+	if sc.Kind != "delayfilter" && r.Bool(0.25) {
+		sc.RestartAtNs = int64(r.Pick(1, 1000, 500000, 1000000, 10000000, 30000000))
+	}
 	np := r.Range(1, 3)
 	if sc.Kind == "router" || sc.Kind == "chain" {
 		np = r.Range(1, 2)
 	}
 	for p := 0; p < np; p++ {
 		var as []arrival
-		for i, n := 0, r.Range(1, 8); i < n; i++ {
+		nArr := r.Range(1, 8)
+		if r.Bool(0.15) {
+			nArr = r.Range(20, 45) // a backlog longer than a small ring
+		}
+		for i, n := 0, nArr; i < n; i++ {
 			var gap int64
 			switch r.Intn(6) {
 			case 0, 1:
@@ -331,10 +339,46 @@ func runRouter(env *simrt.Env, sc *scenario) {
 			_ = conn.Close()
 		}))
 	}
+	var stopInv, startRet uint64
+	if sc.RestartAtNs > 0 {
+		hs = append(hs, env.Go("restarter", func() {
+			env.Sleep(time.Duration(sc.RestartAtNs))
+			stopInv = env.Stamp()
+			if err := wan.Stop(); err != nil {
+				return
+			}
+			env.Fault("router-restart")
+			_ = wan.Start()
+			startRet = env.Stamp()
+		}))
+	}
 	env.Join(hs...)
 	env.Idle(10 * time.Minute)
 	if env.Failed() {
 		return
+	}
+	if stopInv != 0 {
+		// a datagram handed in while the router was being restarted may be refused (routers
+		// accept chunks only while started): only those handed in entirely before the Stop or
+		// after the Start are required to arrive. Queued datagrams survive the restart.
+		var keep []*sent
+		for _, s := range sents {
+			if s.ret != 0 && (s.ret < stopInv || s.inv > startRet) {
+				keep = append(keep, s)
+			}
+		}
+		gotKeep := got[:0:0]
+		for _, g := range got {
+			for _, s := range keep {
+				if s.id == g.id {
+					gotKeep = append(gotKeep, g)
+				}
+			}
+		}
+		if sc.Kind == "chain" {
+			keep, gotKeep = nil, nil // the LAN router is restarted with its parent: flight times through two routers are not tracked
+		}
+		sents, got = keep, gotKeep
 	}
 	// order between senders is decided inside the router: only per-sender order is checked
 	for _, s := range sents {
